@@ -719,7 +719,7 @@ class Parser:
         return _ast.InlineFragment(
             type_condition=(
                 cast(_ast.NamedType, self.advance() and self.parse_named_type())
-                if lead.value == "on"
+                if lead.__class__ is Name and lead.value == "on"
                 else None
             ),
             directives=self.parse_directives(False),
@@ -1052,7 +1052,7 @@ class Parser:
         """
         token = self.peek()
         types = []
-        if token.value == "implements":
+        if token.__class__ is Name and token.value == "implements":
             self.advance()
             self.skip(Ampersand)
             while True:
